@@ -409,6 +409,13 @@ func (c *Conn) write(p []byte, tag any, framed bool) (int, error) {
 		// every write attempt on an open connection, whatever its fate
 		c.WriteHook(c, append([]byte(nil), p...))
 	}
+	if !c.wdl.IsZero() && !time.Now().Before(c.wdl) {
+		// like a real socket: a write with an expired write deadline fails at once,
+		// whether or not it would have blocked
+		simrt.Fault("write_deadline_already_expired")
+		c.Net.logf(c, "write_timeout", 0, nil)
+		return 0, &net.OpError{Op: "write", Net: "sim", Err: timeoutErr{}}
+	}
 	if c.FailWriteAt != 0 && c.Writes == c.FailWriteAt {
 		simrt.Fault("write_error")
 		c.Net.logf(c, "writeerr", 0, nil)
